@@ -9,3 +9,4 @@ CONSTANTS
   Bases = {"0", "1"}
   DieLen = 1
   DieSlimLen = 1
+  DieCoreFrom = 3
